@@ -258,7 +258,7 @@ void mon_c12(CaseCtx &c, Rng &rng){
     bool from_file = rng.coin(0.3); bool file_binary = rng.coin();
     std::string cls = state_class(h) + (from_file ? "+file" : "");
     std::string fam = fam_name(h.cfg.family);
-    std::string desc = J().kv("cfg", h.cfg.json()).str("history", tr).str("state", cls).i("points", h.g.getNumPoints()).i("reps", reps).obj();
+    std::string desc = J().kv("cfg", h.cfg.json()).str("history", tr).str("state", cls).i("points", h.g.getNumPoints()).i("max_reps", reps).obj();
     emit_begin(c, desc);
     if (logdir){
         std::string f = std::string(logdir) + "/desc." + std::to_string(c.index) + ".json";
@@ -293,6 +293,13 @@ void mon_c12(CaseCtx &c, Rng &rng){
     c.count("pool_calls", (long long) pool.size());
     c.count("state:" + fam + ":" + cls);
 
+    // bounded work: weight queries of a wavelet grid solve a sparse system per call and build an N x N basis matrix per cold object, all other
+    // calls are (near) linear in the number of points; large grids get shorter multisets and fewer repetitions (a function of the state only)
+    int calls_hi = 60;
+    {
+        double heavy = (double) T->getNumPoints() / (T->isWavelet() ? 150.0 : 900.0);
+        if (heavy > 1.0){ calls_hi = std::max(20, (int)(60.0 / heavy)); reps = std::max(3, (int)((double) reps / std::min(heavy, 4.0))); }
+    }
     std::unique_ptr<TasmanianSparseGrid> Sown;
     long total_calls = 0;
     for(int rep=0; rep<reps; rep++){
@@ -309,7 +316,7 @@ void mon_c12(CaseCtx &c, Rng &rng){
         std::vector<std::unique_ptr<ThreadPlan>> plans;
         for(int t=0; t<nthreads; t++){
             std::unique_ptr<ThreadPlan> p(new ThreadPlan());
-            int n = rng.range(20, 60);
+            int n = rng.range(20, calls_hi);
             for(int k=0; k<n; k++) p->calls.push_back(rng.range(0, (int) pool.size() - 1));
             p->skew = rng.coin(0.5) ? 0 : (long) rng.range(0, 1 << rng.range(4, 14));
             plans.push_back(std::move(p));
@@ -329,13 +336,13 @@ void mon_c12(CaseCtx &c, Rng &rng){
                     run_call(S, pool[(size_t) id], p->scratch, p->os);
                     if (k == 0) p->t_first = clock.fetch_add(1, std::memory_order_relaxed);
                     p->done = (long) k + 1;
-                    // every racy access costs the sanitizer runtime a search over all racy addresses seen so far: once a repetition has produced
-                    // this many reports the verdict is settled and the rest of the multiset is dropped (relaxed load: no synchronisation)
-                    if (g_tsan_reports.load(std::memory_order_relaxed) - reports_before >= 20) break;
                     if (!p->scratch.same(ref[(size_t) id])){
                         p->nmism++;
                         if (p->mism.size() < 3){ Mismatch mm; mm.call = id; mm.pos = (int) k; mm.got = p->scratch; p->mism.push_back(std::move(mm)); }
                     }
+                    // every racy access costs the sanitizer runtime a search over all racy addresses seen so far: once a repetition has produced
+                    // this many reports the verdict is settled and the rest of the multiset is dropped (relaxed load: no synchronisation)
+                    if (g_tsan_reports.load(std::memory_order_relaxed) - reports_before >= 20) break;
                 }
                 p->t_end = clock.fetch_add(1, std::memory_order_relaxed);
             });
